@@ -370,6 +370,60 @@ impl Check for C02 {
                 }
             });
         }
+        // curves under strong minification (user units of 64 ... 1024 pixels): the outline is the true
+        // curve's (f64), not what the library's own conversion of the curve makes of it
+        {
+            let ks = [64.0f32, 1024.0, 8192.0, 65536.0];
+            let cmodes = [BlendMode::SrcOver, BlendMode::Src, BlendMode::Clear];
+            run.bound("curves under minification (true outline)", format!("a cubic closed by its chord, a quad lens, two S-shaped cubics and a circle of four cubics in user units of {:?} pixels under the inverse scale: fill x {} modes x 2 aa, stroke (round joins, width 3 px) x {} modes, on a 48x48 distinct-pattern surface; pixels outside the true outline / stroke region keep their value", ks, cmodes.len(), cmodes.len()));
+            run.par(ks.len() * cmodes.len(), |s, l| {
+                let k = ks[s / cmodes.len()];
+                let mode = cmodes[s % cmodes.len()];
+                let xf: Xf = [1.0 / k, 0., 0., 1.0 / k, 0., 0.];
+                let sc = |v: f32| v * k;
+                let r = 0.5522848f32 * 18.0;
+                let shapes: Vec<PathSpec> = vec![
+                    PathSpec::new(vec![POp::M(sc(4.), sc(40.)), POp::C(sc(10.), sc(-20.), sc(38.), sc(-20.), sc(44.), sc(40.)), POp::Z]),
+                    PathSpec::new(vec![POp::M(sc(5.), sc(24.)), POp::Q(sc(24.), sc(-10.), sc(43.), sc(24.)), POp::Q(sc(24.), sc(58.), sc(5.), sc(24.)), POp::Z]),
+                    // an S-shaped cubic closed by its chord (far from any single quadratic)
+                    PathSpec::new(vec![POp::M(sc(4.), sc(24.)), POp::C(sc(44.), sc(-40.), sc(4.), sc(88.), sc(44.), sc(24.)), POp::Z]),
+                    PathSpec::new(vec![POp::M(sc(6.), sc(6.)), POp::C(sc(70.), sc(10.), sc(-22.), sc(40.), sc(42.), sc(44.)), POp::L(sc(6.), sc(44.)), POp::Z]),
+                    PathSpec::new(vec![POp::M(sc(42.), sc(24.)), POp::C(sc(42.), sc(24. + r), sc(24. + r), sc(42.), sc(24.), sc(42.)), POp::C(sc(24. - r), sc(42.), sc(6.), sc(24. + r), sc(6.), sc(24.)), POp::C(sc(6.), sc(24. - r), sc(24. - r), sc(6.), sc(24.), sc(6.)), POp::C(sc(24. + r), sc(6.), sc(42.), sc(24. - r), sc(42.), sc(24.)), POp::Z]),
+                ];
+                for shape in &shapes {
+                    for aa in [true, false] {
+                        let scene = Scene { w: 48, h: 48, dst: Dst::Distinct, ops: vec![Op::SetTransform(xf), Op::Fill(shape.clone(), SrcSpec::Solid(0xff204080), Opts { mode, alpha: 1.0, aa })] };
+                        l.states += 2;
+                        l.transitions += 2;
+                        l.traces += 1;
+                        l.evals += 1;
+                        match super::c08::curved_fill_leaves_the_outside_alone(&scene) {
+                            Ok((h, n)) => {
+                                l.outcome(h);
+                                if n > 0 {
+                                    l.nontrivial += 1;
+                                }
+                            }
+                            Err(v) => run.report(52_000 + s, v),
+                        }
+                    }
+                    let st = StyleSpec { width: 3.0 * k, cap: 1, join: 1, miter: 4., dash: vec![], offset: 0. };
+                    let scene = Scene { w: 48, h: 48, dst: Dst::Distinct, ops: vec![Op::SetTransform(xf), Op::Stroke(shape.clone(), st, SrcSpec::Solid(0xff204080), Opts { mode, alpha: 1.0, aa: true })] };
+                    l.states += 2;
+                    l.transitions += 2;
+                    l.traces += 1;
+                    l.evals += 1;
+                    match super::c04::curved_stroke_leaves_the_outside_alone(&scene) {
+                        Ok(Some(h)) => {
+                            l.outcome(h);
+                            l.nontrivial += 1;
+                        }
+                        Ok(None) => l.count("curved_strokes_left_undecided", 1),
+                        Err(v) => run.report(52_500 + s, v),
+                    }
+                }
+            });
+        }
         // dashed strokes: the shape is the dashes of the arc-length model (not of the library's own
         // dasher): what lies in the gaps keeps its value, whatever the mode
         {
@@ -453,6 +507,10 @@ impl Check for C02 {
     }
 
     fn replay(&self, case: &str) -> Result<Option<Violation>, String> {
+        if let Some(rest) = case.strip_prefix("curved | ") {
+            let sc = parse_scene(rest)?;
+            return Ok(if sc.ops.iter().any(|o| matches!(o, Op::Stroke(..))) { super::c04::curved_stroke_leaves_the_outside_alone(&sc).err() } else { super::c08::curved_fill_leaves_the_outside_alone(&sc).err() });
+        }
         if let Some(rest) = case.strip_prefix("dashed | ") {
             return Ok(super::c09::dashes_leave_the_rest_alone(&parse_scene(rest)?).err());
         }
